@@ -45,6 +45,10 @@ Pool == SetToSeq(
      \* prefix p is bound to the URI the query binds p to, so prefix rule and URI rule select the same nodes): each node once
      \cup {Rel(<<Step("namespace", T_name("", <<"p">>))>>), Rel(<<Step("ancestor-or-self", T_any), Step("namespace", T_name("", <<"p">>))>>),
            Abs(<<DoS, Step("namespace", T_name("", <<"p">>))>>), Call(<<"c","o","u","n","t">>, <<Abs(<<DoS, Step("namespace", T_name("", <<"p">>))>>)>>),
+           \* a context that mixes elements with their own attribute and namespace nodes, then a subtree walk
+           Filter(Bin("union", Abs(<<DoS, Step("child", T_any)>>), Abs(<<DoS, Step("attribute", T_any)>>)), <<>>, <<Step("descendant-or-self", T_node)>>),
+           Filter(Bin("union", Abs(<<DoS, Step("child", T_any)>>), Abs(<<DoS, Step("namespace", T_any)>>)), <<>>, <<DoS, Self>>),
+           Filter(Bin("union", Rel(<<Self>>), Rel(<<Step("attribute", T_any)>>)), <<>>, <<Step("descendant-or-self", T_node)>>),
            \* and counts of two-step results (a duplicate shows in the number)
            Call(<<"c","o","u","n","t">>, <<Abs(<<DoS, Step("child", T_any), Step("parent", T_node)>>)>>),
            Call(<<"c","o","u","n","t">>, <<Rel(<<Step("descendant-or-self", T_node), Step("parent", T_node)>>)>>)})
